@@ -185,8 +185,6 @@ def check_model(ctx: Ctx, base: dict, doc: dict, edits: List[dict], seed: int, b
                  1, (seed, "C06roots"), lambda xs: extra.extend(allroots[i] for i in xs))
             for root in roots + extra:
                 for name, body, cfg in (("C01", c01.body, None), ("C02", c02.body, tvgen.GenCfg(decimal_ints=False)), ("C03", c03.body, None)):
-                    def one(x, name=None):
-                        pass
                     def mk(name, body):
                         def f(x):
                             tv, _ = x
